@@ -1,0 +1,17 @@
+//go:build verif
+
+// Contracts for the verif build tag: //@ comment blocks read by /verif/gocv.
+
+package executor
+
+//@ func Executor.Execute
+//@ props C08 C10
+//@ params ctx
+//@ returns res, err
+//@ modifies fresh, entries(map[string]interface{}), elems(interface{})
+//@ end
+
+//@ func (ParallelExecutor).Execute
+//@ props C09
+//@ modifies-assumed fresh, entries(map[string]interface{}), elems(interface{})
+//@ end
